@@ -511,7 +511,9 @@ Fixpoint process (p : planner) (c : pctx) (st : pst) {struct p} : res (select * 
              (with_ [("lra_main", m)] empty_select))), st1, PAggOpP f wl main')
   | PComparisonP fn v main =>
     do (m, st1, main') <- process main c st;
-    Some (and_having [cmp_mk fn (Id "value") (FloatV v)] m, st1, PComparisonP fn v main')
+    (* HAVING on a grouped select; the select of TopKPlanner does not aggregate and is filtered with WHERE *)
+    let cond := cmp_mk fn (Id "value") (FloatV v) in
+    Some ((match s_groupby m with [] => and_where [cond] m | _ => and_having [cond] m end), st1, PComparisonP fn v main')
   | PTopKP len is_top main =>
     do (m, st1, main') <- process main c st;
     let hl := has_column (s_cols m) "labels" in
